@@ -27,7 +27,19 @@ def _ratio(x, y):  # noqa: ANN001, ANN202
     return x / (y + 1.0)
 
 
+class SimInterrupt(KeyboardInterrupt):
+    """The user interrupts a (slow) view computation: raised from inside a model function."""
+
+
+TRIP: list = [None]  # None = not armed; k = raise at the k-th evaluation of the derived value `tot` from now
+
+
 def _sum2(x, y):  # noqa: ANN001, ANN202
+    if TRIP[0] is not None:
+        if TRIP[0] <= 0:
+            TRIP[0] = None
+            raise SimInterrupt
+        TRIP[0] -= 1
     return x + y
 
 
@@ -353,6 +365,27 @@ class Exec:
             tag.append("simulator_continued_after_result_taken")
         if "B" in self.records:
             tag.append(f"two_results_held:reading_{which}")
+        if op.get("interrupt_at") is not None:
+            # the user interrupts this read while the model is being evaluated (Ctrl-C in a
+            # notebook), then simply reads again: the answer must be the usual one
+            p_before = {k: float(x) for k, x in self.model.get_parameter_values().items()}
+            TRIP[0] = int(op["interrupt_at"])
+            try:
+                self.call(op)
+                self.trace.add("interrupt", "not_reached")
+            except SimInterrupt:
+                self.counters["fault_fired:read_interrupted"] += 1
+                self.interrupted = True
+                self.trace.add("interrupt", "fired")
+            except Exception as e:  # noqa: BLE001
+                self.trace.add("interrupt", "exc", type(e).__name__)
+            finally:
+                TRIP[0] = None
+            if {k: float(x) for k, x in self.model.get_parameter_values().items()} != p_before:
+                self.counters["observed:model_parameters_left_changed_by_interrupted_read"] += 1
+                self.model.update_parameters(p_before)
+        if getattr(self, "interrupted", False):
+            tag.append("after_interrupted_read")
         try:
             got = self.call(op)
         except HarnessError:
@@ -484,6 +517,8 @@ def gen_case(rng: SimRng, tier: str) -> dict:  # noqa: ARG001, C901, PLR0912
                 op["normalise"] = {"kind": "per_segment", "values": [r.choice([2.0, 0.5, 4.0, 8.0]) for _ in range(4)]}
             else:
                 op["normalise"] = {"kind": "per_row", "values": [r.choice([2.0, 0.5, 4.0, 8.0, 1.0]) for _ in range(7)]}
+        if r.random() < 0.06:
+            op["interrupt_at"] = r.choice([0, 1, 2, 3, 4, 5, 6, 8, 9, 11, 13, 16])
         if v == "get_args":
             op["flags"] = {f: r.random() < 0.6 for f in ARG_FLAGS}
             if not any(op["flags"].values()):
